@@ -205,6 +205,25 @@ def doNdN (l : Line) : Option String := do
       some s!"ok r={dump (laplacianN den (tbl .forward p) (tbl .backward p) shape ndim c dx (arrs.getD 0 (fun _ => 0)))}"
   | _ => none
 
+/-- `inner ndim= shape= dx= bdry=0|1 x=… y=…` → `ok r=<x.inner(y)>` of the `uniform_discr`
+space with these cell sides (`bdry=1`: `nodes_on_bdry=True`). -/
+def doInner (l : Line) : Option String := do
+  let ndim ← l.nat? "ndim"
+  let sh ← l.nats? "shape"
+  let dxs ← l.crats? "dx"
+  let bdry ← l.nat? "bdry"
+  let xs ← l.crats? "x"
+  let ys ← l.crats? "y"
+  if ndim = 0 || ndim > 8 || sh.length ≠ ndim || dxs.length ≠ ndim || bdry > 1 then none
+  if dxs.any badDx then none
+  let shape : Nat → Nat := fun a => if a < ndim then sh.getD a 1 else 1
+  let dx : Nat → CRat := fun a => dxs.getD a 1
+  let size := (List.range ndim).foldl (fun acc a => acc * shape a) 1
+  if xs.length ≠ size || ys.length ≠ size then none
+  let r := innerN (axisWeight (bdry == 1) shape dx) shape ndim CRat.conj
+    (unflatN shape ndim xs.toArray) (unflatN shape ndim ys.toArray)
+  some s!"ok r={r.str}"
+
 def kindOf : String → Option Kind
   | "pd" => some .pd | "grad" => some .grad | "div" => some .div | "lap" => some .lap | _ => none
 def kindStr : Kind → String
@@ -274,6 +293,7 @@ def handle (l : Line) : Option String :=
   | "tables" => doTables l
   | "cfg" => doCfg l
   | "cfgg" => doCfgG l
+  | "inner" => doInner l
   | _ => none
 
 def main : IO Unit := driverLoop handle
